@@ -56,9 +56,12 @@ Import ListNotations.
 Open Scope Z_scope.
 """
 BASE_CODE = {"A": 0, "C": 1, "G": 2, "T": 3, "N": 4}
-SIG_PRE = "haplotagphase:prephased-altered"                      # phased het call with a PS id (what VcfReader recognises)
-SIG_NOPS = "haplotagphase:prephased-without-ps-altered"          # phased het call without a PS value
-SIG_UNREC = "haplotagphase:prephased-unrecognised-unphased"      # homozygous `a|a`, `|` on a record the writer skips
+SIG_PRE = "haplotagphase:prephased-altered"          # any alteration of a pre-phased call that is not one of the four below
+# residual classes (input class AND observed alteration), recorded as known findings:
+SIG_HOM = "haplotagphase:prephased-homozygous-unphased"             # a|a:PS -> a/a
+SIG_SKIP = "haplotagphase:prephased-on-skipped-record-unphased"     # no ALT / duplicate position / multi-ALT under --no-mav
+SIG_NOKEY = "haplotagphase:prephased-no-ps-key-gains-ps0"           # het a|b with FORMAT GT only -> a|b:0
+SIG_PSDOT = "haplotagphase:prephased-ps-missing-rewritten"          # het a|b:. rewritten from the votes
 
 
 # =============================================================================== input construction
@@ -633,13 +636,39 @@ def call_class(skip, pskey, c):
     return 2
 
 
+def classify_alteration(skip, pskey, ci, co, voted):
+    """signature for one altered pre-phased call: one of the four known residual classes only if both the input class
+    and the observed alteration are exactly the recorded ones, SIG_PRE otherwise"""
+    gt_i, _, ps_i = ci
+    gt_o, ph_o, ps_o = co
+    called = None not in gt_i
+    unphased_same = (not ph_o) and called and gt_o == sorted(gt_i)
+    if skip:
+        # only _remove_existing_phasing acts on the record: `|` -> `/`, alleles sorted, PS untouched
+        return SIG_SKIP if unphased_same and ps_o == ps_i else SIG_PRE
+    cls = call_class(skip, pskey, ci)
+    if cls == 2 and len(gt_i) == 2 and called and gt_i[0] == gt_i[1]:
+        # a|a:PS -> a/a (PS kept, or cleared when another sample of the record is phased)
+        return SIG_HOM if unphased_same and ps_o in (ps_i, None) else SIG_PRE
+    if cls == 1 and not pskey:
+        return SIG_NOKEY if ph_o and gt_o == gt_i and ps_o == 0 else SIG_PRE
+    if cls == 1 and pskey and ps_i is None:
+        if voted:       # re-phased from the votes into the phase set of the reads (either order)
+            return SIG_PSDOT if ph_o and sorted(gt_o) == sorted(gt_i) and ps_o is not None else SIG_PRE
+        return SIG_PSDOT if unphased_same and ps_o is None else SIG_PRE      # no vote at all: left unphased
+    return SIG_PRE
+
+
 def altered_prephased(ch, cls=None):
+    """[(1-based pos, sample index, input call, output call, signature)]"""
     out = []
+    voted = [set(p for p, _ in v) for v in ch["votes"]]
     for sk, ri, ro in zip(skip_flags(ch), ch["inp"], ch["out"]):
         for si, (ci, co) in enumerate(zip(ri[3], ro[3])):
             if ci[1] and (ci[0] != co[0] or ci[1] != co[1] or ci[2] != co[2]):
                 if cls is None or call_class(sk, ri[2], ci) == cls:
-                    out.append((ri[0] + 1, si, ci, co))
+                    out.append((ri[0] + 1, si, ci, co,
+                                classify_alteration(sk, ri[2], ci, co, si < len(voted) and ri[0] in voted[si])))
     return out
 
 
@@ -706,16 +735,26 @@ def report(ctx, meta, failing):
     prov_fail = set(failing["proviso"])
     ctx.tally("cases.proviso_holds", n - len(prov_fail))
     ctx.tally("cases.proviso_fails", len(prov_fail))
-    for cls, lab, sig, txt in (
-            (0, "L1pre0", SIG_PRE, "haplotagphase alters calls that are already phased in its input"),
-            (1, "L1pre1", SIG_NOPS, "haplotagphase alters heterozygous calls written with `|` but without a PS value"),
-            (2, "L1pre2", SIG_UNREC, "haplotagphase unphases calls written with `|` that VcfReader does not regard as "
-                                     "phased (homozygous, or on a record without ALT / at a duplicate position / multi-ALT under --no-mav)")):
+    texts = {
+        SIG_PRE: "haplotagphase alters calls that are already phased in its input",
+        SIG_HOM: "haplotagphase unphases an already phased homozygous call (a|a:PS -> a/a)",
+        SIG_SKIP: "haplotagphase unphases already phased calls on a record the writer skips (no ALT / duplicate "
+                  "position / multi-ALT under --no-mav)",
+        SIG_NOKEY: "an already phased heterozygous call without a PS key comes out with PS = 0",
+        SIG_PSDOT: "an already phased heterozygous call whose PS value is '.' is rewritten from the read votes",
+    }
+    for cls, lab in ((0, "L1pre0"), (1, "L1pre1"), (2, "L1pre2")):      # verdicts (which case fails) come from Coq
         for i in failing[lab]:
             spec, c, ch = meta[i]
-            alt = altered_prephased(ch, cls)
-            what = "; ".join(f"{c}:{p} sample#{si} {fmt_call(a)} -> {fmt_call(b)}" for p, si, a, b in alt[:4])
-            ctx.violation(sig, f"{txt}: {what} (pipeline spec {spec})", {"spec": spec, "signature": sig})
+            by_sig = {}
+            for p, si, a, b, sig in altered_prephased(ch, cls):
+                by_sig.setdefault(sig, []).append((p, si, a, b))
+            if not by_sig:      # Coq and the python mirror disagree on what is altered: never a known class
+                by_sig[SIG_PRE] = []
+            for sig, alt in by_sig.items():
+                what = "; ".join(f"{c}:{p} sample#{si} {fmt_call(a)} -> {fmt_call(b)}" for p, si, a, b in alt[:4])
+                ctx.tally("violations." + sig.split(":")[1])
+                ctx.violation(sig, f"{texts[sig]}: {what} (pipeline spec {spec})", {"spec": spec, "signature": sig})
     for lab, sig, txt in (("L1order", "haplotagphase:order-differs",
                            "a variant phased by haplotagphase has another haplotype order than in the phased VCF that tagged the reads"),
                           ("L1ps", "haplotagphase:ps-differs",
